@@ -361,6 +361,9 @@ func (rp *c20Reporter) report(o c20Outcome) {
 			// limit. Only the latter is a failure of the property.
 			if big := c20RunBatch(nil, []c20Scenario{sc}, 4*rp.memMB, rp.opTimeout); len(big) == 1 && big[0].line != nil {
 				ctx.Hist("c20.alloc-by-input-header", key) // the call returns when given the room
+				ctx.Observe(codec+"-alloc-by-input-header",
+					codec+".Decode reserves as much memory as the corrupted input's length header announces (snappy: up to 4 GiB for a 5-byte preamble) before reporting the corruption; it dies only under an address-space limit",
+					map[string]any{"scenario": sc, "stderr": o.deathMsg})
 				return
 			}
 		}
@@ -560,9 +563,6 @@ func RunC20(ctx *core.Ctx) {
 	// (d) directed: one failing decode of every kind, then a valid round trip or an empty src,
 	// for the dst shapes that select different paths of the read loops. Small inputs, short limit.
 	for _, codec := range c20Codecs {
-		if codec == "lz4" {
-			continue // stateless, and every malformed input costs a worker (covered below)
-		}
 		for bi, bk := range []string{"truncate", "trailing", "flip", "garbage"} {
 			for _, follow := range []string{"rt", "empty"} {
 				for di, dd := range []string{"nil", "zero", "exactcap"} {
@@ -593,25 +593,17 @@ func RunC20(ctx *core.Ctx) {
 			add(c20Scenario{Codec: codec, Level: li, Ops: ops})
 		}
 	}
-	// (b) random histories with failing decodes on the same codec value. lz4 gets few corrupted
-	// inputs (each one that is really malformed costs a worker process) and always last.
+	// (b) random histories with failing decodes on the same codec value
 	nHist := ctx.Scale(150, 1000)
 	for _, codec := range c20Codecs {
 		for h := 0; h < nHist; h++ {
 			n := 2 + r.Intn(9)
 			bad := 30
-			if codec == "lz4" {
-				bad = 0
-			}
 			var ops []c20Op
 			for i := 0; i < n; i++ {
 				ops = append(ops, c20RandOp(ctx, r, lens, bad))
 			}
 			ops[len(ops)-1].K = "rt" // a history always ends with the round trip under test
-			if codec == "lz4" && h < ctx.Scale(16, 60) {
-				op := c20RandOp(ctx, r, lens, 100)
-				ops = append(ops, op)
-			}
 			add(c20Scenario{Codec: codec, Level: r.Intn(30), Ops: ops})
 		}
 	}
@@ -621,7 +613,7 @@ func RunC20(ctx *core.Ctx) {
 		for h := 0; h < nConc; h++ {
 			g := []int{2, 4, 8, 16}[r.Intn(4)]
 			bad := 0
-			if h%2 == 1 && codec != "lz4" {
+			if h%2 == 1 {
 				bad = 25
 			}
 			var ops []c20Op
@@ -766,6 +758,11 @@ func c20Account(ctx *core.Ctx, o c20Outcome) {
 		op := sc.Ops[i]
 		if op.K == "bad" {
 			ctx.Hist("c20.bad-decode", sc.Codec+"/"+op.Bad.Kind+"/"+res.Status)
+			if op.Bad.Kind == "truncate" && strings.HasPrefix(res.Status, "ok") && sc.Codec != "uncompressed" && res.EncLen > 0 {
+				ctx.Observe(sc.Codec+"-truncated-input-accepted",
+					sc.Codec+".Decode returns no error for a strict prefix of an encoder output (outside C20: the property is about Decode(Encode(x)))",
+					map[string]any{"codec": sc.Codec, "level": sc.Level, "op": op, "status": res.Status})
+			}
 		} else {
 			ctx.Hist("c20.roundtrip", sc.Codec+"/"+res.Status)
 			ctx.Hist("c20.dst", "enc="+op.EDst)
